@@ -64,6 +64,7 @@ where
 {
     let meta = <R as OutgoingRequest>::METADATA;
     let n0 = norm(&req);
+    let req_as = req.clone();
     t.transitions += 1;
     let http1 = match catch(|| req.try_into_http_request::<Vec<u8>>(BASE, tok, VERSIONS)) {
         Err(p) => return fail("panic-encode", p.text),
@@ -105,9 +106,37 @@ where
             if m2 != m1 {
                 fail("reencode-differs", format!("{} vs {}", m1.show(), m2.show()))
             } else {
-                None
+                appservice_variant(req_as, tok, &m1, t)
             }
         }
+    }
+}
+
+/// The application-service form of the same request (identity assertion): the same message with exactly
+/// one query parameter `user_id=<the asserted user>` appended after the request's own query.
+fn appservice_variant<R: OutgoingRequest>(req: R, tok: SendAccessToken<'_>, plain: &Msg, t: &mut Tally) -> Option<Fail> {
+    use ruma_common::api::OutgoingRequestAppserviceExt;
+    const AS_USER: &str = "@_as&bot=1 +x:h.example:8448";
+    let user = <&ruma_common::UserId>::try_from(AS_USER).unwrap_or_else(|e| engine::machinery_error(&format!("{AS_USER}: {e}")));
+    t.transitions += 1;
+    let http = match catch(|| req.try_into_http_request_with_user_id::<Vec<u8>>(BASE, tok, user, VERSIONS)) {
+        Err(p) => return fail("appservice/panic-encode", p.text),
+        Ok(Err(e)) => return fail("appservice/encode-error", format!("plain form {} but with user_id: {e}", plain.show())),
+        Ok(Ok(r)) => r,
+    };
+    let m = Msg::of_request(&http);
+    t.outcome("appservice-variant", "encoded");
+    let sep = if plain.uri.contains('?') { '&' } else { '?' };
+    let ok = m.head == plain.head
+        && m.headers == plain.headers
+        && m.body == plain.body
+        && m.uri.strip_prefix(plain.uri.as_str()).and_then(|rest| rest.strip_prefix(sep)).and_then(|q| q.strip_prefix("user_id=")).is_some_and(|v| {
+            !v.contains('&') && !v.contains('#') && mc_api::percent_decode(&v.replace('+', " ")).as_deref() == Some(AS_USER)
+        });
+    if ok {
+        None
+    } else {
+        fail("appservice/not-plain-plus-user_id", format!("plain {} ; with user_id {}", plain.show(), m.show()))
     }
 }
 
